@@ -29,7 +29,8 @@ MODULES = {
              types=dict(_OPTIC_T), opaque_calls=dict(_PX),
              calls={'self._get_starting_z_offset': 'rg_z_offset', 'obj.geometry.sag': 'std_sag'}, **_K),
         dict(name='rg_generate', file=RG, cls='RayGenerator', func='generate_rays',
-             types=dict(_OPTIC_T), opaque_calls=dict(_PX),
+             types=dict(_OPTIC_T),
+             opaque_calls=dict(_PX, **{'self.optic.object_surface.material_post.n': 'num'}),
              opaque_pairs=['self.optic.fields.get_vig_factor'],
              calls={'self._get_ray_origins': 'rg_origins'}, **_K),
     ],
